@@ -443,3 +443,38 @@ def reliable_round_trip(F, R, rule, fid, what):
             "%s: enqueued with mpsc::Sender::send(..).await and the reply awaited (a busy actor delays the caller, it never fails it)" % what,
             "%s uses %s (awaited send: %s, awaited reply: %d): when the actor's queue is full the call fails instead of waiting"
             % (what, lossy or "an unexpected shape", awaited, len(polls)))
+
+
+def parent_terms(F, Bc, origins, depth=4):
+    """origins of a value inside a closure, expressed in the terms of the function that built the closure: a captured variable
+    becomes what was captured; the closure's own argument becomes the receiver of the iterator / Option call the closure is handed
+    to (the elements of `xs.iter().any(|x| ..)` are xs). Other origins are returned unchanged."""
+    fn = Bc.fn
+    par = F.fns.get(fn.get("parent") or "")
+    if fn["kind"] != "Closure" or par is None or depth <= 0:
+        return set(origins)
+    Bp = mir.Body(par, F)
+    ops, site = None, None
+    for bi, b in enumerate(Bp.blocks):
+        for s in b["stmts"]:
+            if s["k"] == "assign" and s["rv"]["k"] == "agg" and s["rv"].get("def") == fn["id"]:
+                ops, site = s["rv"]["ops"], (bi, s["lhs"]["l"])
+    out = set()
+    for o in origins:
+        if o[0] != "param":
+            out.add(o)
+            continue
+        idx = [i for i, n in Bc.upvar.items() if n == o[1]]
+        res = None
+        if idx and ops is not None and idx[0] < len(ops):
+            res = Bp.origins(ops[idx[0]], path0=o[2])
+        elif site is not None:
+            # the closure's argument: elements / payload of the receiver of the call the closure goes to
+            for bi, w, r, t in Bp.calls:
+                if len(t["args"]) >= 2 and any(x[0] == "agg" and x[1] == fn["id"] for a in t["args"][1:] for x in Bp.origins(a)):
+                    res = Bp.origins(t["args"][0], path0=o[2])
+        if res is None:
+            out.add(o)
+        else:
+            out |= parent_terms(F, Bp, res, depth - 1) if par["kind"] == "Closure" else set(res)
+    return out
